@@ -95,3 +95,7 @@ claim("C25",
       "For every format setting (7) and every integer array kind, the real CTE encoder writes an array whose element values are solver variables (symbolic fmt model), the element texts are cut out and parsed back by the real parseIntElement/parseUintElement (strconv interpreted from source) with the base the header selects; z3 (cvc5 as fallback) shows the parsed bytes equal the original element bytes for all element values.",
       "Quick: all values of 8/16-bit kinds for all 7 settings, 32-bit kinds for binary/octal/hex settings; thorough adds 64-bit kinds and 32-bit decimal. The header->base association (grammar) is assumed; float kinds are outside reach. Setting value 1 (FlagZeroFilled alone) and unnamed values 2,3 are not exercised.",
       "DESIGN.md §5 C25")
+claim("C24",
+      "Listener callbacks of the CTE decoder (ExitValueInt, parseIntElement/parseUintElement, ExitCodepointContents, ExitEscapeChar) are driven with a symbolic token text constrained to the lexer rule's shape (sign, base prefix in either case, 1..3 symbolic digits, digit separators); a digit-accumulating reference gives the spelled value; z3 shows the emitted event / element bytes carry exactly that value, elements are rejected exactly when they do not fit, and escapes decode to the spelled character.",
+      "The ANTLR lexer/parser is not executed (token shapes taken from CTELexer.g4). Float literals, verbatim sequences, line continuations and integers beyond 64 bits are outside reach.",
+      "DESIGN.md §5 C24")
